@@ -102,8 +102,9 @@ def ws2dwcv(y, nodata, llas, robust, out, lopt):
                 # collapses to zero or to rounding noise and says nothing about the
                 # scale of the residuals: keep the weights (also avoids 0/0). The test
                 # is relative to the range of the data, so it does not change when a
-                # constant is added to the series
-                if mad > 1e-9 * spread:
+                # constant is added to the series (a constant series has range 0 and
+                # only rounding noise for residuals)
+                if spread > 0 and mad > 1e-9 * spread:
                     u_arr = r_arr / (1.4826 * mad * np.sqrt(1 - gamma.sum() / n))
 
                     new_weights = (1 - (u_arr / 4.685) ** 2) ** 2
